@@ -560,8 +560,6 @@ def _retriggered_failure(case, o):
 
 
 def known(case, obs, verdict):
-    if case["fam"] == "flow" and isinstance(obs, dict) and verdict.startswith("cause-lost") and _retriggered_failure(case, obs):
-        return "S27-retriggered-failed-node-overwrites-cause"
     if case["fam"] == "dag" and isinstance(obs, dict):
         sig = verdict.split(":")[0]
     return None
